@@ -295,3 +295,19 @@ Proof.
       apply N.eqb_eq in Er. apply forallb_forall. intros n Hn. apply N.leb_le. apply E4; assumption. }
   rewrite H. reflexivity.
 Qed.
+
+(* ---- concrete inputs used by the Examples of Properties/C10.v --------------------------- *)
+
+Definition ex_ops : list op :=
+  [ OMeta RoleLeader 1 [1; 2] [(2, 3)];
+    OAppend [1; 2; 3; 0] [false; true; false; false];
+    OHW 4; OCkpt 3;
+    ORead (mkReq 0 0 0 10 0 false) 0 2;          (* returns 1,2,3 (4 is above the checkpointed HW) *)
+    OSync 0 0 0 10 PullModeUp 0 2;               (* returns 1,3: 2 is SyncOnce *)
+    OApply 2 0 0;                                (* allowed: deletes 1,2 *)
+    ORead (mkReq MaxUint64 0 0 10 0 true) 0 1;   (* latest first, MinISR 1: 4,3 *)
+    OApply 1 0 0;                                (* regressing boundary: no-op *)
+    OApply 4 0 0 ].                              (* blocked: checkpoint lag, submits a checkpoint *)
+
+
+Definition ex_snap (rows : list N) (hw local : N) (st : rstate) : snap := mkSnap rows 3 hw local 0 3 st.
